@@ -240,6 +240,14 @@ def selectors(R, C, rng, full):
     return out
 
 
+def _flat(d):
+    for x in d:
+        if isinstance(x, (list, tuple)):
+            yield from _flat(x)
+        else:
+            yield x
+
+
 def numpy_ints(only=None):
     import numpy
     from pyplate import Plate
@@ -385,6 +393,11 @@ def run(chk, gate, status):
         m = decode(mraw)
         sp = spec_select(plate.row_names, plate.column_names, d)
         dist[d[0]] = dist.get(d[0], 0) + 1
+        if 'True' in json.dumps(d).title() and any(x is True or x is False for x in _flat(d)):
+            # a bool where an index is expected is not a documented selector (Python happens to count it as 1 / 0): it may be refused or
+            # read as that integer; neither the documented-meaning oracle nor the comparison with the model judges it
+            if impl[0] == 'exc' or (sp is not None and sp[0] != 'reject' and impl[0] == 'ok' and impl[1] == sp[1]):
+                continue
         # ---- oracle: the documented meaning
         if sp is not None:
             if sp[0] == 'reject':
